@@ -1,7 +1,7 @@
 //! Verification hooks (only compiled with `--cfg datatrash_mos_verif`).
 //!
 //! `cpu_step`: the test runner appends one JSON object per event to the file named by the
-//! environment variable `MOS_VERIF_TRACE` (nothing happens when it is not set):
+//! environment variable `MOS_VERIF_CPU_TRACE` (nothing happens when it is not set):
 //!   start  a test runner was created: test path, entry pc, bank name, bank base address and image
 //!   step   before every instruction: registers, status register, the three bytes at the pc and the
 //!          source positions (1-based line/column) of the assertions matched to this pc
@@ -9,7 +9,7 @@
 use std::io::Write;
 
 pub fn emit(value: serde_json::Value) {
-    if let Ok(path) = std::env::var("MOS_VERIF_TRACE") {
+    if let Ok(path) = std::env::var("MOS_VERIF_CPU_TRACE") {
         if let Ok(mut f) = std::fs::OpenOptions::new()
             .create(true)
             .append(true)
